@@ -510,11 +510,14 @@ unsigned int ProcessExecutor::check()
                         std::ostringstream oss;
                         oss << "Child process exited with " << exitstatus;
                         reportInternalChildErr(childname, oss.str());
+                        // a child which died after it sent its results still makes the analysis fail
+                        ++result;
                     }
                 } else if (WIFSIGNALED(stat)) {
                     std::ostringstream oss;
                     oss << "Child process crashed with signal " << WTERMSIG(stat);
                     reportInternalChildErr(childname, oss.str());
+                    ++result;
                 }
             }
         }
